@@ -160,6 +160,7 @@ Definition atoi (s0 : str) : Z :=
 Definition EDivZero : N := 1%N.
 Definition ENegExp : N := 2%N.
 Definition EUnsupOp : N := 3%N.
+Definition ELvalue : N := 4%N.
 Definition ESyntax : N := 5%N.
 Definition ERecursion : N := 6%N.
 Definition EUnmodelled : N := 99%N.
@@ -231,7 +232,7 @@ Definition assgn_op (o : binop) (val arg : Z) : res Z :=
   | _ => Ok val
   end.
 
-(* the type assertion of expr.X to a Word, then Lit(): None = the type assertion panics *)
+(* the type assertion of X to a Word, then Lit(): None = X is no Word *)
 Definition word_lit (x : expr) : option str :=
   match x with
   | Word s => Some s
@@ -250,7 +251,7 @@ Fixpoint arithm (e : expr) (en : env) : ares :=
       match o with
       | Inc | Dec =>
           match word_lit x with
-          | None => (en, Panic)
+          | None => (en, Err ELvalue)      (* operand is no *Word, e.g. ++x++ *)
           | Some name =>
               let old := atoi (env_get en name) in
               let val := wrap64 (match o with Inc => old + 1 | _ => old - 1 end) in
